@@ -256,7 +256,7 @@ impl Prop for C17 {
                 let f0 = feeds[0].clone();
                 feeds.push(f0);
             } else {
-                let shape = r.below(SHAPES.len()) as u8;
+                let shape = crate::feed::shape_for(&trees, r.below(SHAPES.len()) as u8);
                 feeds.push(crate::feed::gen_signed(r, shape, n_events + 8, scale, sign));
             }
         }
@@ -289,7 +289,7 @@ impl Prop for C17 {
                     feed_of.push(feed_of[j]);
                     cursor.push(cursor[j]);
                 } else {
-                    let shape = r.below(SHAPES.len()) as u8;
+                    let shape = crate::feed::shape_for(&trees, r.below(SHAPES.len()) as u8);
                     feeds.push(crate::feed::gen_signed(r, shape, n_events + 8, scale, sign));
                     feed_of.push(feeds.len() - 1);
                     cursor.push(0);
